@@ -182,4 +182,43 @@ example : (run cfg1 (init cfg1 [.tcp]) twoFaults).fault = none ∧
     ((run cfg1 (init cfg1 [.tcp]) twoFaults).handles.map fun w => ((run cfg1 (init cfg1 [.tcp]) twoFaults).wk w).idx) = [0] := by
   decide
 
+/-! ### Non-vacuity of the per-function theorems: each hypothesis set is met by a reachable state -/
+-- a reachable state in which the worker under the cursor is dead and undiscovered
+def sDead : St := run cfg1 (init cfg1 [.tcp]) [.env (.die 0)]
+example : (sendConnection cfg1 sDead ⟨7, 0⟩).1.fault = none ∧ sDead.handles[sDead.next]? = some 0 ∧
+    (sDead.wk 0).alive = false := by decide
+-- … and the conclusion is not trivial there: the handle list really shrinks from 2 to 1
+example : sDead.handles.length = 2 ∧ (sendConnection cfg1 sDead ⟨7, 0⟩).1.handles.length = 1 := by decide
+
+-- a reachable state with a reported, not yet replaced fault (hypothesis of `restart_creates_replacement`)
+def sReported : St := run cfg1 (init cfg1 [.tcp]) [.env (.die 0), .env (.connect 0), .poll [.listener 0] []]
+example : sReported.restarted < sReported.faultedLog.length ∧ sReported.faultedLog.getD sReported.restarted 0 = 0 := by decide
+-- … and one without (hypothesis of `restart_rejected_without_fault`)
+example : ¬ ((init cfg1 [.tcp]).restarted < (init cfg1 [.tcp]).faultedLog.length ∧
+    (init cfg1 [.tcp]).faultedLog.getD (init cfg1 [.tcp]).restarted 0 = 0) := by decide
+
+-- the replacement's handle is at the head of the waker queue (hypotheses of `replacement_rejoins`)
+def sRepl : St := (envStep cfg1 sReported (.restart 0)).1
+example : sRepl.fault = none ∧ (yieldPt cfg1 sRepl).wq = [.worker 2] ∧ (yieldPt cfg1 sRepl).paused = false ∧
+    ((yieldPt cfg1 sRepl).wk 2).idx < 512 := by decide
+
+-- a late availability notification for a removed handle (hypotheses of `stale_wakeup_ignored`)
+def sLate : St := run cfg1 (init cfg1 [.tcp])
+  [.env (.connect 0), .env (.connect 0), .poll [.listener 0, .waker] [], .env (.recv 0), .env (.recv 1),
+   .env (.finishNow 0 none), .poll [.waker] [], .env (.die 0), .env (.die 1), .env (.connect 0),
+   .poll [.listener 0, .waker] [], .env (.finishNow 1 none)]
+example : sLate.fault = none ∧ (yieldPt cfg1 sLate).wq = [.workerAvail 1] ∧
+    hasHandleIdx { yieldPt cfg1 sLate with wq := [] } 1 = false := by decide
+
+-- a single live worker under the cursor, marked available (hypotheses of `single_worker_replacement_serves`)
+def cfgOne : Cfg := { limit := 1, nIdx := 1 }
+def sOne : St := run cfgOne (init cfgOne [.tcp])
+  [.env (.die 0), .env (.connect 0), .poll [.listener 0] [], .env (.restart 0), .poll [.waker] []]
+example : sOne.fault = none ∧ sOne.handles = [1] ∧ sOne.next = 0 ∧ (sOne.wk 1).alive = true ∧
+    sOne.avail (sOne.wk 1).idx = true := by decide
+-- the first step of `accept_one` in the initial state (hypotheses of `accept_one_no_index_panic`)
+example : (init cfg1 [.tcp]).fault = none ∧ (init cfg1 [.tcp]).handles[(init cfg1 [.tcp]).next]? = some 0 ∧
+    (init cfg1 [.tcp]).avail ((init cfg1 [.tcp]).wk 0).idx = true ∧ ((init cfg1 [.tcp]).wk 0).alive = true ∧
+    (init cfg1 [.tcp]).handles.length ≠ 0 := by decide
+
 end ActixNet.C08
